@@ -38,4 +38,61 @@ theorem plaintext_injective (P : Prims) (hP : LawfulPrims P) (side : Side) (ak c
   apply hne
   rw [← List.take_append_drop 24 c, ← List.take_append_drop 24 c', henv, this]
 
+/-- Keys for which the client→server (`x = 0`) and server→client (`x = 8`) derivations read the same
+bytes: the three ranges of the auth key used by MTProto 2.0 coincide with their 8-byte shifts. -/
+def SideBlind (ak : Bytes) : Prop :=
+  C06.substr ak 88 32 = C06.substr ak 96 32 ∧ C06.substr ak 0 36 = C06.substr ak 8 36 ∧
+    C06.substr ak 40 36 = C06.substr ak 48 36
+
+/-- A key of period 8 (in particular a constant key): shifting by 8 bytes gives the same bytes. -/
+def Period8 (ak : Bytes) : Prop := ak.drop 8 = ak.take (ak.length - 8)
+
+theorem period8_replicate (n : Nat) (v : UInt8) : Period8 (List.replicate n v) := by
+  unfold Period8
+  rw [List.drop_replicate, List.length_replicate, List.take_replicate]
+  congr 1
+  omega
+
+theorem substr_shift8 (ak : Bytes) (h : Period8 ak) (a n : Nat) (hb : a + n + 8 ≤ ak.length) :
+    C06.substr ak (a + 8) n = C06.substr ak a n := by
+  unfold C06.substr
+  have e : ak.drop (a + 8) = (ak.drop 8).drop a := by rw [List.drop_drop, Nat.add_comm]
+  rw [e, h, List.drop_take, List.take_take]
+  congr 1
+  omega
+
+theorem period8_sideBlind (ak : Bytes) (h : Period8 ak) (hl : 128 ≤ ak.length) : SideBlind ak := by
+  refine ⟨?_, ?_, ?_⟩
+  · exact (substr_shift8 ak h 88 32 (by omega)).symm
+  · exact (substr_shift8 ak h 0 36 (by omega)).symm
+  · exact (substr_shift8 ak h 40 36 (by omega)).symm
+
+theorem sideBlind_spec (P : Prims) (ak : Bytes) (h : SideBlind ak) (mk pt : Bytes) :
+    C06.Spec.msgKey P ak pt .client = C06.Spec.msgKey P ak pt .server ∧
+      C06.Spec.keys P ak mk .client = C06.Spec.keys P ak mk .server := by
+  obtain ⟨h1, h2, h3⟩ := h
+  constructor
+  · simp only [C06.Spec.msgKey, C06.Spec.msgKeyLarge, C06.Spec.x, Nat.add_zero]
+    rw [h1]
+  · simp only [C06.Spec.keys, C06.Spec.sha256a, C06.Spec.sha256b, C06.Spec.x, Nat.add_zero]
+    rw [h2, h3]
+
+/-- For side-blind keys both ciphers decide identically on every frame. -/
+theorem sideBlind_decrypt_eq (P : Prims) (hP : LawfulPrims P) (ak keyId c : Bytes) (h : SideBlind ak)
+    (s : Side) : decrypt P s ak keyId c = decrypt P s.flip ak keyId c := by
+  have hk : ∀ mk, C06.Impl.keys P ak mk s.flip = C06.Impl.keys P ak mk s.flip.flip := by
+    intro mk
+    rw [C06.keys_eq P hP, C06.keys_eq P hP]
+    cases s
+    · exact ((sideBlind_spec P ak h mk []).2).symm
+    · exact (sideBlind_spec P ak h mk []).2
+  have hm : ∀ pt, C06.Impl.msgKey P ak pt s.flip = C06.Impl.msgKey P ak pt s.flip.flip := by
+    intro pt
+    rw [C06.msgKey_eq P hP, C06.msgKey_eq P hP]
+    cases s
+    · exact ((sideBlind_spec P ak h [] pt).1).symm
+    · exact (sideBlind_spec P ak h [] pt).1
+  unfold decrypt decryptMessage
+  simp only [hk, hm]
+
 end TdModel.C05
